@@ -64,9 +64,18 @@ Live(c) == ~conn[c].lclosed /\ ~conn[c].reof /\ ~conn[c].reset /\ ~conn[c].dead
 NextDeadline == IF {t \in Deadlines : t > now} = {} THEN now + Sec(1)
                 ELSE CHOOSE t \in {u \in Deadlines : u > now} : \A u \in Deadlines : u > now => t <= u
 
+NoStall == \A c \in DOMAIN conn : ~conn[c].stalled
+
 GEnv ==
   /\ Quiescent /\ ~done /\ Len(script) < GenSteps
   /\ \/ /\ CanMore /\ EnvConnect(NextC, "10.0.0.2", "10.0.0.1") /\ Rec(Step("connect", NextC, "", 0))
+     \* the remote stops reading for a while (not in the last moves: a script ends with every connection readable)
+     \/ \E c \in DOMAIN conn : /\ Live(c) /\ conn[c].held /\ ~conn[c].stalled /\ Len(script) + 6 < GenSteps
+                                /\ EnvStall(c, TRUE) /\ Rec(Step("stall", c, "", 0))
+     \* the application writes on the current session
+     \/ /\ gh.nsess[P] >= 1
+        /\ EnvCall("w" \o ToString(Len(script)), "write", P, gh.nsess[P], <<7, Len(script)>>)
+        /\ Rec(Step("write", "", "", gh.nsess[P]))
      \/ /\ CanMore /\ EnvDialAccept(P, NextC) /\ Rec(Step("dialAccept", NextC, "", 0))
      \/ /\ EnvDialRefuse(P) /\ Rec(Step("dialRefuse", "", "", 0))
      \/ \E c \in DOMAIN conn : \E m \in Msgs :
@@ -78,18 +87,24 @@ GEnv ==
                   IF now + 1 < NextDeadline THEN NextDeadline - 1 ELSE NextDeadline} :
           /\ now' = t /\ Rec(Step("advance", "", "", t - now))
           /\ UNCHANGED <<cfg, srv, calls, pm, fsm, conn, dial, out, gh>>
-     \/ /\ "stop" \notin DOMAIN calls /\ ~srv.closed /\ P \in srv.reg /\ Len(script) + 4 >= GenSteps
+     \/ /\ "stop" \notin DOMAIN calls /\ ~srv.closed /\ P \in srv.reg /\ Len(script) + 4 >= GenSteps /\ NoStall
         /\ \/ EnvCall("stop", "deletePeer", P, 0, <<>>) /\ Rec(Step("deletePeer", "", "", 0))
            \/ EnvCall("stop", "close", "", 0, <<>>) /\ Rec(Step("close", "", "", 0))
 
+(* reading resumes: always possible, and it does not count as a move once the script is full *)
+GUnstall ==
+  /\ Quiescent /\ ~done
+  /\ \E c \in DOMAIN conn : conn[c].stalled /\ EnvStall(c, FALSE) /\ Rec(Step("unstall", c, "", 0))
+
 GFinish ==
-  /\ Quiescent /\ ~done /\ Len(script) = GenSteps
+  /\ Quiescent /\ ~done /\ Len(script) >= GenSteps /\ NoStall
   /\ PrintT(<<"SCRIPT", ToJson(script)>>)
   /\ done' = TRUE /\ UNCHANGED <<vars, script>>
 
 GNext ==
   \/ Internal /\ UNCHANGED <<script, done>>
   \/ GEnv
+  \/ GUnstall
   \/ GFinish
 
 GSpec == GInit /\ [][GNext]_gvars
